@@ -66,7 +66,7 @@ CONTRACTS = {
                               'basis[idx][head_i] * (ch * ctrlpts[spans[idx] - degree + head_i][d1]))',
                               'implies(h0, basis[idx][head_i] * ctrlpts[spans[idx] - degree + head_i][d0] <= basis[idx][head_i] * c)',
                               'implies(h1, basis[idx][head_i] * ctrlpts[spans[idx] - degree + head_i][d1] >= 0)'])},
-        rounds=3,
+        rounds=3, chunks=12, timeout_ms=30000,
     ),
 
     # A4.1: homogeneous evaluation followed by the division by the weight coordinate.  Carries: the divisor is a convex
